@@ -22,9 +22,7 @@ use s2n_quic_core::{
 use s2n_quic_dc::{
     credentials::{Credentials, Id},
     crypto::{
-        awslc,
-        open::{self as copen, Application as _, Control as _},
-        seal::control::Stream as _,
+        open::{Application as _, Control as _},
         UninitSlice,
     },
     packet::{self, secret_control as control, stream::PacketSpace, WireVersion},
@@ -725,10 +723,21 @@ fn xor_mutants(rng: &mut Rng, s: &Specimen, positions: &[usize], out: &mut Vec<M
                 break r;
             }
         };
-        for mask in [0x01u8, 0x80, 0xff, r] {
+        // the first byte carries the packet-kind / flag bits: try every single bit there
+        let masks: Vec<u8> = if pos == 0 {
+            vec![0x01, 0x02, 0x04, 0x08, 0x10, 0x20, 0x40, 0x80, 0xff, r]
+        } else {
+            vec![0x01, 0x80, 0xff, r]
+        };
+        for mask in masks {
             let mut b = s.bytes.clone();
             b[pos] ^= mask;
-            out.push(Mutant { class: "xor", region: s.region(pos), bytes: b, detail: format!("pos={pos} mask={mask:#04x}") });
+            out.push(Mutant {
+                class: "xor",
+                region: s.region(pos),
+                bytes: b,
+                detail: format!("pos={pos} mask={mask:#04x}"),
+            });
         }
     }
 }
@@ -903,7 +912,7 @@ fn judge_mutant(st: &mut Stats, s: &Specimen, m: &Mutant, ctx: &KeyCtx, seed: u6
             let _ = fields;
             st.sum.violation(Violation {
                 property: "C18".into(),
-                signature: format!("c18:tamper_accepted:{}:{}:{}", s.kind.name(), m.class, m.region),
+                signature: format!("c18:tamper_accepted:{}:{}", s.kind.name(), m.region),
                 what: format!(
                     "a {} packet modified by `{}` ({}; region {}) still authenticates/decrypts under the path secret it names",
                     s.kind.name(), m.class, m.detail, m.region
@@ -969,7 +978,9 @@ fn codec_case(st: &mut Stats, seed: u64, case: u64, full_limit: usize) {
     // a second path secret: packets for it must never open under the first
     let mut secret2 = [0u8; 32];
     rng.fill(&mut secret2);
-    let ctx2 = KeyCtx::new(secret2, suite, token);
+    let mut token2 = [0u8; TAG_LEN];
+    rng.fill(&mut token2);
+    let ctx2 = KeyCtx::new(secret2, suite, token2);
 
     totality(st, &mut rng, seed, case, &ctx);
 
@@ -1099,7 +1110,7 @@ impl Victim {
         }
         let peer: SocketAddr = format!("127.0.{}.{}:{}", rng.below(250) + 1, rng.below(250) + 1, 9).parse().unwrap();
         let other: SocketAddr = format!("127.1.{}.{}:{}", rng.below(250) + 1, rng.below(250) + 1, 9).parse().unwrap();
-        let mut extra_secret = |rng: &mut Rng| {
+        let extra_secret = |rng: &mut Rng| {
             let mut s = [0u8; 32];
             rng.fill(&mut s);
             s
@@ -1243,7 +1254,7 @@ fn deliver_and_check(st: &mut Stats, v: &mut Victim, s: &Specimen, ctx: &KeyCtx,
         };
         st.sum.violation(Violation {
             property: "C18".into(),
-            signature: format!("c18:forged_control_acted_on:{}:{}:{}:{}", s.kind.name(), m.class, m.region, effect),
+            signature: format!("c18:forged_control_acted_on:{}:{}:{}", s.kind.name(), m.region, effect),
             what: format!(
                 "a {} packet modified by `{}` ({}; region {}) was acted upon by the map in state {} via {api_name}: events {:?}, before {:?}, after {:?}, key id jump {:?}",
                 s.kind.name(), m.class, m.detail, m.region, v.state.name(), bad_events, before, after, key_jump
@@ -1342,7 +1353,16 @@ fn map_case(st: &mut Stats, seed: u64, case: u64) {
         v.last_key_id = v.probe_key_id(ctx.id);
     }
     for kind in [Kind::StaleKey, Kind::ReplayDetected, Kind::UnknownPathSecret] {
-        let s = make_specimen(&mut rng.fork(), kind, &ctx, 0);
+        // The genuine packet is delivered at the end as the positive control. An authenticated
+        // StaleKey(min_key_id >= 2^62-2) makes the sender's next `next_key_id()` hit its
+        // by-design `expect("2^62 integer incremented per-path will not wrap")`, so keep the
+        // genuine value below that (forged values are never applied, any value is fine there).
+        let s = loop {
+            let s = make_specimen(&mut rng.fork(), kind, &ctx, 0);
+            if kind != Kind::StaleKey || s.fields.control_value.unwrap_or(0) < (1 << 61) {
+                break s;
+            }
+        };
         st.sum.evaluations += 1;
         st.sum.count(&format!("b2_packets_{}_{}", kind.name(), suite.name()), 1);
         let mut mutants = Vec::new();
@@ -1409,8 +1429,10 @@ fn data_case(st: &mut Stats, seed: u64, case: u64) {
     let mut secret = [0u8; 32];
     rng.fill(&mut secret);
     let ctx = KeyCtx::new(secret, suite, [9; 16]);
-    let mut v = Victim::build(MapState::One, &ctx, &mut rng, false);
     for kind in [Kind::Datagram, Kind::Stream] {
+        // a fresh victim per packet: the positive control needs a replay window that has not
+        // been moved by the other packet's (random) key id
+        let v = Victim::build(MapState::One, &ctx, &mut rng, false);
         // unreliable stream ids only: pair_for_credentials is asked for UDP features
         let s = loop {
             let s = make_specimen(&mut rng.fork(), kind, &ctx, 400);
@@ -1443,13 +1465,13 @@ fn data_case(st: &mut Stats, seed: u64, case: u64) {
                 }
                 Ok(Ok(())) => st.sum.violation(Violation {
                     property: "C18".into(),
-                    signature: format!("c18:tamper_accepted_via_map:{}:{}:{}", kind.name(), m.class, m.region),
+                    signature: format!("c18:tamper_accepted_via_map:{}:{}", kind.name(), m.region),
                     what: format!("a {} packet modified by `{}` ({}) decrypted with keys from the map", kind.name(), m.class, m.detail),
                     replay: json!({"check":"c18","phase":"data","seed":seed,"case":case,"specimen":specimen_json(&s,&ctx),"mutant":{"class":m.class,"region":m.region,"detail":m.detail,"bytes":m.bytes}}),
                 }),
                 Ok(Err(_)) if !touched.is_empty() => st.sum.violation(Violation {
                     property: "C18".into(),
-                    signature: format!("c18:replay_state_touched:{}:{}:{}", kind.name(), m.class, m.region),
+                    signature: format!("c18:replay_state_touched:{}:{}", kind.name(), m.region),
                     what: format!("a rejected mutated {} packet still produced replay-window events {touched:?}", kind.name()),
                     replay: json!({"check":"c18","phase":"data","seed":seed,"case":case,"specimen":specimen_json(&s,&ctx),"mutant":{"class":m.class,"region":m.region,"detail":m.detail,"bytes":m.bytes}}),
                 }),
@@ -1631,7 +1653,7 @@ pub fn replay(r: &Value, sum: &mut Summary) {
             let mbytes = if phase == "map" { bytes_of(&r["delivered"]) } else { bytes_of(&r["mutant"]["bytes"]) };
             let m = Mutant {
                 class: "replayed",
-                region: "replayed",
+                region: Box::leak(r["mutant"]["region"].as_str().unwrap_or("replayed").to_string().into_boxed_str()),
                 bytes: if mbytes.is_empty() { bytes.clone() } else { mbytes },
                 detail: format!("{}", r["mutant"]),
             };
@@ -1652,7 +1674,7 @@ pub fn replay(r: &Value, sum: &mut Summary) {
                 eprintln!("[c18 replay] mutant ({} B, {}) -> {o:?}", m.bytes.len(), m.detail);
                 if let Ok(Opened::Ok { .. }) = o {
                     if m.bytes != bytes {
-                        sum.violation(Violation { property: "C18".into(), signature: format!("c18:tamper_accepted:{}:replayed", kind.name()), what: "mutated packet accepted".into(), replay: r.clone() });
+                        sum.violation(Violation { property: "C18".into(), signature: format!("c18:tamper_accepted:{}:{}", kind.name(), m.region), what: "mutated packet accepted".into(), replay: r.clone() });
                     }
                 }
                 if let Err(msg) = o {
